@@ -359,7 +359,7 @@ def run_chain_item(acc, mr, item, seed, windows):
 def work_chains(p):
     mr = _mr()
     acc = lattice.Acc()
-    items = chain_items(p["tier"])
+    items = chain_items(p["tier"])[::p.get("stride", 1)]
     for it in items[p["lo"]:p["hi"]]:
         run_chain_item(acc, mr, it, p["seed"], False)
     return acc.result()
@@ -368,7 +368,7 @@ def work_chains(p):
 def work_windows(p):
     mr = _mr()
     acc = lattice.Acc()
-    items = window_items(p["tier"])
+    items = window_items(p["tier"])[::p.get("stride", 1)]
     for it in items[p["lo"]:p["hi"]]:
         run_chain_item(acc, mr, it, p["seed"], True)
     return acc.result()
@@ -465,7 +465,7 @@ def eval_arm_state(acc, mr, ac, q, V, sidx, raised_seen):
 def work_arms(p):
     mr = _mr()
     acc = lattice.Acc()
-    items = arm_items(p["tier"])
+    items = arm_items(p["tier"])[::p.get("stride", 1)]
     raised_seen = set()
     for name, s in items[p["lo"]:p["hi"]]:
         ac = arm_case(name, p["seed"])
@@ -491,15 +491,25 @@ def _empty():
     return m
 
 
+def _mark(m, stride):
+    if stride > 1:
+        m["complete"] = False
+    return m
+
+
 def run(ctx):
     tier = ctx.tier
     ci, wi, ai = chain_items(tier), window_items(tier), arm_items(tier)
-    parts = [x for x in os.environ.get("VERIF_C08_PARTS", "chains,windows,arms").split(",") if x]   # development aid only
+    parts = [x for x in os.environ.get("VERIF_C08_PARTS", "chains,windows,arms").split(",") if x]   # development aids only:
+    stride = max(1, int(os.environ.get("VERIF_C08_STRIDE", "1") or 1))                                # a run that uses them is not exhaustive
+    if stride > 1:
+        ci, wi, ai = ci[::stride], wi[::stride], ai[::stride]
+    ex = {"stride": stride}
     with ctx.pool() as pool:
         k = 40 if tier == "thorough" else 12
-        m1 = lattice.run(ctx, pool, MOD, "work_chains", len(ci), nshards=pool.workers * k, part="chains") if "chains" in parts else _empty()
-        m2 = lattice.run(ctx, pool, MOD, "work_windows", len(wi), nshards=pool.workers * k, part="windows") if "windows" in parts else _empty()
-        m3 = lattice.run(ctx, pool, MOD, "work_arms", len(ai), nshards=pool.workers * 6, part="arms") if "arms" in parts else _empty()
+        m1 = lattice.run(ctx, pool, MOD, "work_chains", len(ci), extra=ex, nshards=pool.workers * k, part="chains") if "chains" in parts else _empty()
+        m2 = lattice.run(ctx, pool, MOD, "work_windows", len(wi), extra=ex, nshards=pool.workers * k, part="windows") if "windows" in parts else _empty()
+        m3 = lattice.run(ctx, pool, MOD, "work_arms", len(ai), extra=ex, nshards=pool.workers * 6, part="arms") if "arms" in parts else _empty()
     # an Arm method that raises does so at every state: keep the first record per (arm, method, exception), count the rest
     seen, kept = set(), []
     for v in m3["viols"]:
@@ -515,7 +525,7 @@ def run(ctx):
             "; QUICK thinning: n=3 chains use ONE (frames, inertia) pair per chain, pair = (schemes[c mod 4], schemes[(c div 4) mod 3]) for "
             "chain number c (all 12 pairs occur 18 times); each window uses one pair and for n=6,7 only the states with index = window "
             "number mod 4; three arms instead of four")
-    lattice.fill(ctx, [("chains", m1), ("windows", m2), ("arms", m3)],
+    lattice.fill(ctx, [("chains", _mark(m1, stride)), ("windows", _mark(m2, stride)), ("arms", _mark(m3, stride))],
                  "complete product: joint sequences (6^n, n=1..3) x 4 link-frame schemes x 3 inertia schemes x {0,0.3,-1.2,pi/2}^n "
                  "(+1 seed-generic q), 7 cyclic windows for n=4..7 x {0.3,-1.2}^n, arms x state palette; per state the clauses run over "
                  "g in {0,e_i,generic}, F in {0,e_i,generic}, qd in {0,e_i,generic}, the product {0,generic}^4 of (qd,qdd,g,F) plus six one-hot "
